@@ -639,6 +639,16 @@ def gen_ini(rng, S):
         caps = [(0, 0), (1, 0), (1, 1), (1, rng.range(2, 20))] + under
         k += 1
         out.append((U.c_ini(k % 5 == 0, t, sets, caps), M("ini", "ini", lcls(len(t)) + "/sets%d" % len(sets), "")))
+    # one value rewritten several times with growing text: past the allocation padding (the line is reallocated and moves),
+    # then by 1..15 bytes more (must not be written in place into a block that did not get the padding)
+    for g in range(1, 16):
+        for first in (1, 17):
+            big = first + 16 + rng.range(8, 40)
+            sets = [(b"s", b"k", b"v" * first), (b"s", b"k", b"w" * big), (b"s", b"k", b"x" * (big + g))]
+            if g % 3 == 0:
+                sets.insert(1, (b"s", b"other", b"o" * 20))      # another line allocated in between
+            out.append((U.c_ini(0, b"[s]\nk0=1\n", sets, [(0, 0), (1, 0), (1, 1), (1, -1)]),
+                        M("ini", "ini", "regrow+%d" % g, "value-regrow")))
     # growth of the line array across its allocation steps (64 slots): stores of 60..68 and 124..132 lines, then sets
     # that add one line (new value) or two lines at once (new section + new value)
     for nl in list(range(60, 69)) + list(range(124, 133)):
